@@ -38,6 +38,8 @@ namespace bloch::compiler {
                 tokens.push_back(scanToken());
             }
         }
+        m_tokenLine = m_line;
+        m_tokenColumn = m_column;
         tokens.push_back(makeToken(TokenType::Eof, ""));
         return tokens;
     }
@@ -99,11 +101,13 @@ namespace bloch::compiler {
     }
 
     Token Lexer::makeToken(TokenType type, const std::string& value) {
-        // Column is adjusted so error spans point to token start.
-        return Token{type, value, m_line, m_column - static_cast<int>(value.length())};
+        // Tokens are reported where their first character is, also when they span lines.
+        return Token{type, value, m_tokenLine, m_tokenColumn};
     }
 
     Token Lexer::scanToken() {
+        m_tokenLine = m_line;
+        m_tokenColumn = m_column;
         char c = advance();
 
         // Fast paths for common leading characters
@@ -308,9 +312,10 @@ namespace bloch::compiler {
         // Strings are double-quoted and may span lines; we do not process escapes yet.
         size_t start = m_position;
         while (m_position < m_source.size() && peek() != '"') {
-            if (peek() == '\n')
+            if (advance() == '\n') {
                 m_line++;
-            (void)advance();
+                m_column = 1;
+            }
         }
 
         if (peek() == '"') {
@@ -327,8 +332,10 @@ namespace bloch::compiler {
     Token Lexer::scanChar() {
         // Char literals are simple: '\'' X '\'' with no escaping support for now.
         size_t start = m_position;
-        if (m_position < m_source.size())
-            (void)advance();
+        if (m_position < m_source.size() && advance() == '\n') {
+            m_line++;
+            m_column = 1;
+        }
 
         if (peek() == '\'') {
             (void)advance();
